@@ -32,4 +32,6 @@ def run(rep, fb, tier):
     from ..rules import lints3 as _l3
     _l3.rule_forth_source_literals(rep, fb)
     _l3.rule_forth_parse_depth(rep, fb)
+    __import__("vf.rules.binding2", fromlist=["x"]).rule_forth_input_bytes(rep, fb)
+    __import__("vf.rules.lints3", fromlist=["x"]).rule_forth_depth_abs(rep, fb)
     rep.units = fb.units
